@@ -102,3 +102,44 @@ def frame_obligations():
                           "fx-frame", "P", {"reads": sorted(reads), "writes": sorted(writes), "state read": state, "mutations": muts[:3],
                                             "written after construction by some method": sorted(later)}, fn=fn))
     return obs
+
+
+def options_at_call_time(seed=0):
+    """B: the objective evaluated is the one the object's PUBLIC option attributes name at call time -- an object whose `ovo`
+    (or `epsilon`) attribute is changed after construction evaluates like a fresh object built with that value, and switching
+    back restores the first value.  (P-tier counterpart: constructors store their parameters and nothing derived from them.)"""
+    import gemclus.gemini as G
+    rs = np.random.RandomState(seed + 3)
+    n, K = 9, 3
+    P = rs.dirichlet(np.ones(K) * 2.0, size=n)
+    X = rs.normal(size=(n, 2))
+    obs = []
+    for cls in ("KLGEMINI", "TVGEMINI", "HellingerGEMINI", "ChiSquareGEMINI", "MMDGEMINI", "WassersteinGEMINI"):
+        C = getattr(G, cls)
+        A = X @ X.T if cls == "MMDGEMINI" else (np.abs(X[:, None, :] - X[None, :, :]).sum(-1) if cls == "WassersteinGEMINI" else None)
+        bad = None
+        try:
+            fresh = {o: float(np.asarray(C(ovo=o)(P, A)).item()) for o in (False, True)}
+            fresh_g = {o: np.asarray(C(ovo=o)(P, A, return_grad=True)[1], dtype=float) for o in (False, True)}
+            for start in (False, True):
+                g = C(ovo=start)
+                seq = [start, not start, start]
+                for o in seq:
+                    g.ovo = o
+                    v = float(np.asarray(g(P, A)).item())
+                    gr = np.asarray(g(P, A, return_grad=True)[1], dtype=float)
+                    if not close(v, fresh[o]) or not close(gr, fresh_g[o]):
+                        bad = bad or {"class": cls, "constructed with ovo": start, "ovo attribute now": o, "score": v, "fresh object": fresh[o]}
+            # epsilon read at call time: a hard assignment is clipped with the CURRENT epsilon
+            H = np.eye(K)[rs.randint(0, K, size=n)]
+            g = C()
+            g.epsilon = 1e-3
+            v = float(np.asarray(g(H, A)).item())
+            w = float(np.asarray(C(epsilon=1e-3)(H, A)).item())
+            if not close(v, w):
+                bad = bad or {"class": cls, "epsilon changed after construction": 1e-3, "score": v, "fresh object": w}
+        except Exception as e:
+            bad = {"class": cls, "exception": repr(e)[:200]}
+        obs.append(Ob(f"{cls}: options are read at call time (ovo / epsilon changed after construction == fresh object with that value; switching back restores)",
+                      PROVED if bad is None else REFUTED, "native", "B", dict(bad or {}, replayed=bad is not None), fn=f"gemclus.gemini.{cls}.evaluate"))
+    return obs
